@@ -80,6 +80,7 @@ def run(ctx):
         who_may_call(ctx, P, run_)
     estimator(ctx)
     builder_spin_pairing(ctx)
+    energy_zero_scaling(ctx)
 
 
 def norm_pairing(ctx, P, step):
@@ -270,6 +271,80 @@ def estimator(ctx):
         e_ok = wa.op == "getitem" and wa.args[0] is d.args[0]
     ctx.ob("WMEAN-1", f"{fi.qualname}: energies are measured on the walkers whose overlaps weight them", e_ok,
            "calc_energy(walkers) of the same prop_data", fi)
+
+
+def _scale_paths(root, leaf):
+    """the sets of non-constant multipliers / divisors met on each path from root down to leaf (paths through the
+    right operand of a division are ignored: the leaf would be a divisor itself)"""
+    out = set()
+    seen = set()
+
+    def walk(t, acc):
+        key_ = (t.uid, acc)
+        if key_ in seen:
+            return
+        seen.add(key_)
+        if t is leaf:
+            out.add(acc)
+            return
+        if t.op == "binop" and t.args[0] == "/":
+            d = strip_wrappers(t.args[2])
+            walk(t.args[1], acc if d.op == "const" else acc | {("/", d.uid)})
+            return
+        if t.op == "binop" and t.args[0] == "*":
+            a, b = t.args[1], t.args[2]
+            sa, sb = strip_wrappers(a), strip_wrappers(b)
+            walk(a, acc if sb.op == "const" else acc | {("*", sb.uid)})
+            walk(b, acc if sa.op == "const" else acc | {("*", sa.uid)})
+            return
+        for a in t.args:
+            if hasattr(a, "op"):
+                walk(a, acc)
+
+    walk(root, frozenset())
+    return out
+
+
+def energy_zero_scaling(ctx):
+    """PAIR-1.  The free-projection step multiplies every column of spin sector s by exp(dt * c_s) with
+    c_s = (h0_prop + ene0) / (2 n_s), so that the determinant picks up exp(dt * (h0_prop + ene0)) once.  The energy
+    zero ene0 must therefore be scaled exactly like the constant -h0 it offsets: on every path from the stored
+    walkers to ham_data['ene0'] the symbolic multipliers / divisors (the electron counts) are those met on the way
+    to ham_data['h0']."""
+    from ..symex import substitute, sym
+    p = ctx.p
+    HD = sym("ham_data")
+    for P in p.subclasses("propagation.propagator"):
+        if p.abstract_methods(P):
+            continue
+        step = p.lookup_method(P, "propagate_free")
+        bld = p.lookup_method(P, "_build_propagation_intermediates")
+        if step is None or step.is_refusal() or bld is None or P.split(".")[-1].startswith("propagator_cpmc"):
+            continue
+        ev = Evaluator(p)
+        rb = ev.result(ev.eval_function(bld, self_class=P))
+        ev2 = Evaluator(p)
+        rs = ev2.result(ev2.eval_function(step, self_class=P))
+        if rb is None or rs is None:
+            continue
+        w = getitem(rs, const("walkers"))
+        mp = {}
+        for k in ("h0_prop_fp", "h0_prop"):
+            v = getitem(rb, const(k))
+            if not (v.op == "getitem" and v.args[0] is rb):
+                mp[getitem(HD, const(k))] = v
+        w2 = substitute(w, mp)
+        w2 = substitute(w2, mp)          # h0_prop inside h0_prop_fp
+        e0, h0 = getitem(HD, const("ene0")), getitem(HD, const("h0"))
+        pe, ph = _scale_paths(w2, e0), _scale_paths(w2, h0)
+        if not pe or not ph:
+            ctx.rep.note(f"{P}.propagate_free: ene0 / h0 do not both reach the stored walkers "
+                         f"({len(pe)} / {len(ph)} paths); energy-zero scaling rule not applicable")
+            continue
+        ctx.ob("PAIR-1", f"{P}.propagate_free: ene0 is scaled like the constant h0 it offsets (per-electron, per-sector)",
+               pe == ph, f"{len(pe)} scaling path(s) to ene0, {len(ph)} to h0" + ("" if pe == ph else
+                                                                                 ": ene0 and h0 are divided by different factors"),
+               step)
 
 
 def builder_spin_pairing(ctx):
